@@ -450,6 +450,19 @@ class Body:
             return self.expr_rv(payload, seen)
         return self.expr_call(payload, seen)
 
+    def alternatives(self, e, depth=0):
+        """Expand an expression whose root (through refs) is a multiply-assigned local into the
+        list of expressions it may hold (one per assignment)."""
+        n = norm(e)
+        if n[0] == "local" and depth < 6 and n[1] not in self.pdefs and n[1] not in self.uses_addr:
+            out = []
+            for d in self.defs.get(n[1], []):
+                x = self.expr_rv(d[3], frozenset([n[1]])) if d[2] == "rv" else self.expr_call(d[3], frozenset([n[1]]))
+                out.extend(self.alternatives(x, depth + 1))
+            if out:
+                return out
+        return [n]
+
     def expr_call(self, t, seen=None):
         f = t["func"]
         args = [self.expr_op(a, seen) for a in t["args"]]
